@@ -4,11 +4,11 @@
 From ApolloVerif Require Import Base.Chars Lex.Item Parse.Outcome Parse.Builder Parse.Limits.
 
 (* Token { kind, data, index } *)
-Record ptoken := { tok_kind : tkind; tok_data : str; tok_index : N }.
+Record prstoken := { tok_kind : tkind; tok_data : str; tok_index : N }.
 
 (* PendingToken *)
 Inductive ppend :=
-| PendIgnored (t : ptoken)
+| PendIgnored (t : prstoken)
 | PendError (data : str).
 
 (* crate::Error, reduced to what the properties observe: limit error or not, and the index.
@@ -18,7 +18,7 @@ Record perror := { pe_class : pclass; pe_index : N }.
 
 Record pstate := {
   ps_items : list item   (* what self.lexer will still yield; [] = the iterator returns None *);
-  ps_cur : option ptoken   (* current_token *);
+  ps_cur : option prstoken   (* current_token *);
   ps_builder : pbuilder;
   ps_pending : list ppend   (* in source order *);
   ps_errors : list perror   (* REVERSED (most recent first) *);
@@ -26,7 +26,7 @@ Record pstate := {
   ps_accept : bool   (* accept_errors *);
   ps_pulled : N   (* number of items pulled from self.lexer = lexer.limit_tracker.high *);
   ps_dbg : bool   (* debug_assertions on? (constant during a run) *);
-  ps_dropped : list ptoken   (* GHOST (no behaviour depends on it): tokens popped and never given to the builder, REVERSED *)
+  ps_dropped : list prstoken   (* GHOST (no behaviour depends on it): tokens popped and never given to the builder, REVERSED *)
 }.
 
 Definition ps_set_items v s := {| ps_items := v; ps_cur := ps_cur s; ps_builder := ps_builder s; ps_pending := ps_pending s; ps_errors := ps_errors s; ps_rec := ps_rec s; ps_accept := ps_accept s; ps_pulled := ps_pulled s; ps_dbg := ps_dbg s; ps_dropped := ps_dropped s |}.
@@ -85,12 +85,12 @@ Fixpoint p_str_eqb (a b : str) : bool :=
   | _, _ => false
   end.
 
-Definition ptoken_eqb (a b : ptoken) : bool :=
+Definition prstoken_eqb (a b : prstoken) : bool :=
   tkind_eqb (tok_kind a) (tok_kind b) && p_str_eqb (tok_data a) (tok_data b) && (tok_index a =? tok_index b).
-Definition poptoken_eqb (a b : option ptoken) : bool :=
+Definition prsoptoken_eqb (a b : option prstoken) : bool :=
   match a, b with
   | None, None => true
-  | Some x, Some y => ptoken_eqb x y
+  | Some x, Some y => prstoken_eqb x y
   | _, _ => false
   end.
 
@@ -106,23 +106,23 @@ Definition p_lexer_error_effect (c : eclass) (data : str) (index : N) (s : pstat
 
 Definition p_count_pull (s : pstate) : pstate := ps_set_pulled (ps_pulled s + 1) s.
 
-Fixpoint p_next_token_loop (items : list item) (s : pstate) : option ptoken * pstate :=
+Fixpoint p_next_token_loop (items : list item) (s : pstate) : option prstoken * pstate :=
   match items with
   | [] => (None, ps_set_items [] s)
   | ITok k d i :: r => (Some {| tok_kind := k; tok_data := d; tok_index := i |}, ps_set_items r (p_count_pull s))
   | IErr c d i :: r => p_next_token_loop r (p_lexer_error_effect c d i (p_count_pull s))
   end.
 
-Definition p_next_token : PM (option ptoken) := fun s => POk (p_next_token_loop (ps_items s) s).
+Definition p_next_token : PM (option prstoken) := fun s => POk (p_next_token_loop (ps_items s) s).
 
 (* peek_token: fill current_token if empty, return it *)
-Definition p_peek_token : PM (option ptoken) :=
+Definition p_peek_token : PM (option prstoken) :=
   fun s => match ps_cur s with
            | Some t => POk (Some t, s)
            | None => let '(o, s') := p_next_token_loop (ps_items s) s in POk (o, ps_set_cur o s')
            end.
 
-Definition p_current : PM (option ptoken) := p_peek_token.
+Definition p_current : PM (option prstoken) := p_peek_token.
 Definition p_peek : PM (option tkind) := o <- p_peek_token ;; p_ret (option_map tok_kind o).
 Definition p_peek_data : PM (option str) := o <- p_peek_token ;; p_ret (option_map tok_data o).
 
@@ -132,7 +132,7 @@ Definition p_at (k : tkind) : PM bool :=
 
 (* peek_n_inner(n): current_token, then a CLONE of the lexer; errors dropped; Whitespace, Comment and
    Comma filtered out; .nth(n - 1).  Pure. *)
-Fixpoint p_nth_significant (n : nat) (l : list item) : option ptoken :=
+Fixpoint p_nth_significant (n : nat) (l : list item) : option prstoken :=
   match l with
   | [] => None
   | IErr _ _ _ :: r => p_nth_significant n r
@@ -144,7 +144,7 @@ Fixpoint p_nth_significant (n : nat) (l : list item) : option ptoken :=
            end
   end.
 
-Definition p_peek_n_inner (n : nat) : PM (option ptoken) :=
+Definition p_peek_n_inner (n : nat) : PM (option prstoken) :=
   fun s => match n with
            | O => PPanic PnPeekNZero
            | S m =>
@@ -154,12 +154,12 @@ Definition p_peek_n_inner (n : nat) : PM (option ptoken) :=
                         end in
                POk (p_nth_significant m l, s)
            end.
-Definition p_peek_token_n (n : nat) : PM (option ptoken) := p_peek_n_inner n.
+Definition p_peek_token_n (n : nat) : PM (option prstoken) := p_peek_n_inner n.
 Definition p_peek_n (n : nat) : PM (option tkind) := o <- p_peek_n_inner n ;; p_ret (option_map tok_kind o).
 Definition p_peek_data_n (n : nat) : PM (option str) := o <- p_peek_token_n n ;; p_ret (option_map tok_data o).
 
 (* pop: take current_token, else pull one; panics when the lexer is finished *)
-Definition p_pop : PM ptoken :=
+Definition p_pop : PM prstoken :=
   fun s => match ps_cur s with
            | Some t => POk (t, ps_set_cur None s)
            | None => match p_next_token_loop (ps_items s) s with
@@ -169,7 +169,7 @@ Definition p_pop : PM ptoken :=
            end.
 
 (* push_token *)
-Definition p_push_token (k : skind) (t : ptoken) : PM unit :=
+Definition p_push_token (k : skind) (t : prstoken) : PM unit :=
   p_modify (fun s => ps_set_builder (pb_token k (tok_data t) (ps_builder s)) s).
 
 (* skip_ignored: while let Some(Comment | Whitespace | Comma) = self.peek() { pending.push(Ignored(self.pop())) }
@@ -233,7 +233,7 @@ Definition p_bump (k : skind) : PM unit := p_eat k ;; p_skip_ignored.
 Definition p_push_err (e : perror) : PM unit :=
   p_modify (fun s => if ps_accept s then ps_set_errors (e :: ps_errors s) s else s).
 
-Definition p_syntax_error_at (t : ptoken) : perror := {| pe_class := PcSyntax; pe_index := tok_index t |}.
+Definition p_syntax_error_at (t : prstoken) : perror := {| pe_class := PcSyntax; pe_index := tok_index t |}.
 
 (* limit_err *)
 Definition p_limit_err : PM unit :=
@@ -246,7 +246,7 @@ Definition p_limit_err : PM unit :=
   end.
 
 (* err_at_token *)
-Definition p_err_at_token (t : ptoken) : PM unit := p_push_err (p_syntax_error_at t).
+Definition p_err_at_token (t : prstoken) : PM unit := p_push_err (p_syntax_error_at t).
 
 (* err *)
 Definition p_err : PM unit :=
@@ -322,8 +322,8 @@ Definition p_rec_guard {A B} (on_reached : PM B) (body : PM A) (k : A -> PM B) :
   else x <- body ;; p_rec_decrement ;; k x.
 
 (* debug_assert!(before != self.current_token) *)
-Definition p_debug_assert_advanced (before : option ptoken) : PM unit :=
-  fun s => if ps_dbg s && poptoken_eqb before (ps_cur s) then PPanic PnDebugAssert else POk (tt, s).
+Definition p_debug_assert_advanced (before : option prstoken) : PM unit :=
+  fun s => if ps_dbg s && prsoptoken_eqb before (ps_cur s) then PPanic PnDebugAssert else POk (tt, s).
 
 (* peek_while, with the closure's captured mutable variable as an accumulator `acc`.
    run returns (acc', continue?) : true = ControlFlow::Continue, false = Break. *)
@@ -383,7 +383,7 @@ Definition p_trailing_tokens_are_errors (fuel : nat) : PM unit :=
   p_skip_ignored ;; p_trailing_loop fuel ;; p_push_ignored.
 
 (* GHOST: record that token t was popped and will never reach the builder *)
-Definition p_ghost_dropped (t : ptoken) : PM unit := p_modify (fun s => ps_set_dropped (t :: ps_dropped s) s).
+Definition p_ghost_dropped (t : prstoken) : PM unit := p_modify (fun s => ps_set_dropped (t :: ps_dropped s) s).
 
 (* parse_separated_list *)
 Definition p_parse_separated_list (fuel : nat) (separator : tkind) (separator_syntax : skind) (run : PM unit)
